@@ -218,6 +218,53 @@ class UnionRender:
                    "args": (left, right), "describe": describe}
 
 
+class RangeTextTok:
+    """str(r) of a range, used modularly inside UnionSpecifier.__str__ (what the text means is the obligation set of RangeRender)"""
+
+    def __init__(self, r):
+        self.r = r
+
+
+class RangeStrAtCallSite(Contract):
+    target = RNG + "__str__"
+
+    def result(self, ex, args):
+        return RangeTextTok(args[0])
+
+    def ensures(self, ex, args, result):
+        return []
+
+    def allowed_raise(self, ex, args, exc):
+        return z3.BoolVal(False)
+
+
+class UnionStr:
+    """UnionSpecifier.__str__ when no shorter form applies: the texts of the ranges, one per range, in order, joined by '||'"""
+    target = UNI + "__str__"
+
+    def __init__(self, th):
+        self.th = th
+
+    def cases(self, th):
+        from pyvc.theories.version import UnionText
+        f = th.index.func(self.target)
+        U_ = th.index.cls("UnionSpecifier")
+        for n in (2, 3, 4):
+            rs = tuple(th.sym_range(f"r{k}") for k in range(n))
+            u = Obj(U_, {"ranges": rs, "simplified": None})
+            pre = [th.range_pre(r) for r in rs] + [sep_v(rs[k], rs[k + 1]) for k in range(n - 1)]
+            pre.append(ver_cong(rs[0].fields["max"].val, rs[1].fields["min"].val))
+
+            def post(ex, res, rs=rs):
+                if isinstance(res, SpecText):
+                    return [("C06.union.str.short-form-is-the-simplified-form", z3.BoolVal(True))]      # what a short form denotes: UnionRender(_simplified_form)
+                if not isinstance(res, UnionText):
+                    return [("C06.union.str.is-a-join-of-range-texts", z3.BoolVal(False))]
+                ok = len(res.parts) == len(rs) and all(isinstance(p, RangeTextTok) and p.r is r for p, r in zip(res.parts, rs))
+                return [("C06.union.str.one-text-per-range-in-order", z3.BoolVal(ok))]
+            yield {"name": f"{n}-ranges", "pre": pre, "thunk": (lambda ex, u=u: ex.call_function(f, [u], inline=True)), "post": post, "args": ()}
+
+
 class ReleaseSeries:
     """specifiers/__init__._release_series(version, drop): (first version of the series, first version of the next series), built from
     Version.release/.epoch - the parsing side of `~=V` (drop=1) and `==P.*` / `!=P.*` (drop=0)"""
@@ -452,5 +499,5 @@ def loop_specs(th):
 
 def all_contracts(th):
     cs = [PadZeros(), FirstDifferent(), RangeRender(th, "_simplified_form"), RangeRender(th, "__str__"),
-          UnionRender(th, "_simplified_form"), ReleaseSeries(th), FromPkgSpecifier(th), FromSpecifier(th)]
+          UnionRender(th, "_simplified_form"), ReleaseSeries(th), FromPkgSpecifier(th), FromSpecifier(th), UnionStr(th)]
     return {c.target: c for c in cs}
